@@ -62,10 +62,24 @@ Definition check_case (v : val) : list Z * bool :=
   | _ => (c1 ++ c2 ++ c3, dom)
   end.
 
-(* header-only cases (> 4 GiB): input [calls o_patches] *)
+(* merge every run of adjacent headers (unbounded sizes): the set of replaced ranges a header list denotes *)
+Fixpoint merge_runs (l : list (Z * Z * Z)) : list (Z * Z * Z) :=
+  match l with
+  | [] => []
+  | (o, a, b) :: r =>
+      match merge_runs r with
+      | (o2, a2, b2) :: r2 => if o + a =? o2 then (o, a + a2, b + b2) :: r2 else (o, a, b) :: (o2, a2, b2) :: r2
+      | [] => [(o, a, b)]
+      end
+  end.
+(* header-only cases (> 4 GiB, calls in file order): input [calls o_patches]
+   codes: 1 model headers differ; 7 SPEC: observed headers do not denote the ranges the calls asked for *)
 Definition check_headers (v : val) : list Z :=
-  let ps := add_all (map vcall (vl (vnth 0 v))) in
-  if list_eqb hdr_eqb (map hdr ps) (map vhdr (vl (vnth 1 v))) then [] else [1].
+  let cs := map vcall (vl (vnth 0 v)) in
+  let obs := map vhdr (vl (vnth 1 v)) in
+  let ps := add_all cs in
+  (if list_eqb hdr_eqb (map hdr ps) obs then [] else [1]) ++
+  (if list_eqb hdr_eqb (merge_runs obs) (merge_runs (map (fun c => (c_off c, c_old c, zlen (c_blob c))) cs)) then [] else [7]).
 
 (* entry point: [0 case] or [1 hdrcase] *)
 Definition run (v : val) : val :=
